@@ -257,7 +257,9 @@ impl<'a, T: QueryToRelationTranslator + Copy + Clone> VisitedQueryRelations<'a, 
                     .collect();
                 Ok(RelationWithColumns::new(relation, columns))
             }
-            _ => todo!(),
+            _ => Err(Error::other(
+                "Only tables and derived tables are supported in a FROM clause",
+            )),
         }
     }
 
@@ -325,7 +327,9 @@ impl<'a, T: QueryToRelationTranslator + Copy + Clone> VisitedQueryRelations<'a, 
                         }),
                 )
             }
-            ast::JoinConstraint::None => todo!(),
+            ast::JoinConstraint::None => {
+                return Err(Error::other("A JOIN without constraint is not supported"))
+            }
         })
     }
 
@@ -348,7 +352,9 @@ impl<'a, T: QueryToRelationTranslator + Copy + Clone> VisitedQueryRelations<'a, 
                 self.try_from_join_constraint_with_columns(join_constraint, columns)?,
             )),
             ast::JoinOperator::CrossJoin => Ok(JoinOperator::Cross),
-            _ => todo!(), //TODO implement other JOIN later
+            _ => Err(Error::other(format!(
+                "This kind of JOIN is not supported: {join_operator:?}"
+            ))), //TODO implement other JOIN later
         }
     }
 
@@ -412,10 +418,12 @@ impl<'a, T: QueryToRelationTranslator + Copy + Clone> VisitedQueryRelations<'a, 
                     .collect();
                 join.remove_duplicates_and_coalesce(v, &join_columns)
             }
-            ast::JoinOperator::LeftSemi(_) => todo!(),
-            ast::JoinOperator::RightSemi(_) => todo!(),
-            ast::JoinOperator::LeftAnti(_) => todo!(),
-            ast::JoinOperator::RightAnti(_) => todo!(),
+            ast::JoinOperator::LeftSemi(_)
+            | ast::JoinOperator::RightSemi(_)
+            | ast::JoinOperator::LeftAnti(_)
+            | ast::JoinOperator::RightAnti(_) => {
+                return Err(Error::other("SEMI and ANTI JOINs are not supported"))
+            }
             _ => {
                 let empty: Vec<(Identifier, Identifier)> = vec![];
                 (Relation::from(join), empty.into_iter().collect())
@@ -496,7 +504,9 @@ impl<'a, T: QueryToRelationTranslator + Copy + Clone> VisitedQueryRelations<'a, 
                         self.translator.try_expr(expr, columns)?,
                     ))
                 }
-                ast::SelectItem::QualifiedWildcard(_, _) => todo!(),
+                ast::SelectItem::QualifiedWildcard(_, _) => {
+                    return Err(Error::other("Qualified wildcards (t.*) are not supported"))
+                }
                 ast::SelectItem::Wildcard(_) => {
                     // push all names that are present in the from into named_exprs.
                     // for non ambiguous col names preserve the input name
@@ -544,7 +554,7 @@ impl<'a, T: QueryToRelationTranslator + Copy + Clone> VisitedQueryRelations<'a, 
         named_exprs.extend(named_expr_from_select.into_iter());
         // Prepare the GROUP BY
         let group_by = match group_by {
-            ast::GroupByExpr::All => todo!(),
+            ast::GroupByExpr::All => return Err(Error::other("GROUP BY ALL is not supported")),
             ast::GroupByExpr::Expressions(group_by_exprs) => group_by_exprs
                 .iter()
                 .map(|e| self.translator.try_expr(e, columns))
@@ -823,9 +833,13 @@ impl<'a, T: QueryToRelationTranslator + Copy + Clone> VisitedQueryRelations<'a, 
                     // Build a Relation from set operation
                     Ok(Arc::new(relation_builder.try_build()?))
                 }
-                _ => panic!("We only support set operations over SELECTs"),
+                _ => Err(Error::other(
+                    "Set operations are only supported over SELECTs",
+                )),
             },
-            _ => todo!(),
+            _ => Err(Error::other(
+                "Only SELECTs and set operations over SELECTs are supported as queries",
+            )),
         }
     }
 }
